@@ -15,6 +15,8 @@ TECH = "deterministic simulation with fault injection: seeded schedule/fault sea
 CHECKS = {
  "C01": ("exploration", "e2e", "Seeded search over generated sites x configurations x schedules of the whole pipeline; oracle: every seed taken from the queue is reported finished exactly once, only when no node of its tree is unfetched/unprocessed and all planted tree URLs were requested before the finish event; reactor table = accepted-unfinished at every quiescent point.", "DESIGN.md 4/C01"),
  "C02": ("exploration", "e2e", "Seeded search over body sizes/framings/encodings/statuses x WARC pool/dedupe/discard settings x schedules; an independent WARC reader scans the job's files at every finish event and compares request/response/revisit records with the bytes the simulated origin actually sent (SHA-1, length, status); discarded responses must be absent.", "DESIGN.md 4/C02"),
+ "C03": ("fault_enumeration", "e2e", "Per sampled scenario and configuration-matrix point (proxy/direct, sync/async WARC, limiter, workers, pool, seencheck) a profiling run enumerates the pipeline's progress events; one run per (event kind, occurrence) issues controler.Stop() there, plus stops while paused (operator, disk watchdog), during resume, at start and after drain. Oracle: Stop() returns within a simulated-time bound, no crash, no .open file, every WARC file parses to EOF as complete records with intact request/response pairs.", "DESIGN.md 4/C03"),
+ "C04": ("fault_enumeration", "e2e", "Two real OS processes per case: the first is SIGKILLed at an enumerated (instrumented point, occurrence), inside WARC write #k with a torn tail, or at a seeded scheduler step (or stopped gracefully); the second restarts on the same job directory, fault-free, to quiescence. Oracle: rows not reported finished are handed out and requested again and none stays CLAIMED; rows deleted as finished have their accepted captures in the WARC files left on disk; those files parse record by record up to a torn tail of an .open file only.", "DESIGN.md 4/C04"),
  "C06": ("exploration", "e2e", "Seeded search over adversarial origins (redirect chains/loops, nested resources, always-failing URLs) x limits; oracle over the origin log and queue hand-offs: chain length, asset depth, attempts per visit, pipeline passes, hop arithmetic.", "DESIGN.md 4/C06"),
 }
 
